@@ -103,6 +103,28 @@ def scenarios():
             G.build_api(files(hidden_first=hidden_first), "autogen-snippets=false")
         except Exception as e:      # noqa
             failures.append({"case": "resolution", "hidden_first": hidden_first, "what": "generation failed", "error": repr(e)[:300]})
+    # relative type names are resolved against the package of the METHOD: a service in a sub-package whose result / metadata types have namesakes
+    # in the API's root package
+    root = G.new_file("acme/depot/v1/common.proto", "acme.depot.v1")
+    for nm in ("Result", "Progress", "Req"):
+        G.add_message(root, nm, [G.F("root_marker", 1, G.T.TYPE_STRING)])
+    arch = G.new_file("acme/depot/v1/archive/archive.proto", "acme.depot.v1.archive", deps=G.STD_DEPS + ["acme/depot/v1/common.proto"])
+    for nm in ("Result", "Progress"):
+        G.add_message(arch, nm, [G.F("archive_marker", 1, G.T.TYPE_STRING)])
+    asvc = G.add_service(arch, "Archive")
+    G.add_method(asvc, "Compact", ".acme.depot.v1.Req", ".google.longrunning.Operation", http=("post", "/v1/{name=a/*}:compact"), body="*", lro=("Result", "Progress"))
+    G.add_method(asvc, "Purge", ".acme.depot.v1.Req", ".google.longrunning.Operation", http=("post", "/v1/{name=a/*}:purge"), body="*",
+                 lro=("acme.depot.v1.Result", "acme.depot.v1.archive.Progress"))
+    n += 2
+    try:
+        dapi, _ = G.build_api([root, arch], "autogen-snippets=false")
+        ms = dapi.services["acme.depot.v1.archive.Archive"].methods
+        got = {k: (ms[k].lro.response_type.ident.proto, ms[k].lro.metadata_type.ident.proto) for k in ("Compact", "Purge")}
+        want = {"Compact": ("acme.depot.v1.archive.Result", "acme.depot.v1.archive.Progress"), "Purge": ("acme.depot.v1.Result", "acme.depot.v1.archive.Progress")}
+        if got != want:
+            failures.append({"case": "schema", "what": "relative operation_info names of a sub-package service are not resolved against the method's package", "got": got, "want": want})
+    except Exception as e:      # noqa
+        failures.append({"case": "schema", "what": "an API with an LRO service in a sub-package cannot be built", "error": repr(e)[:300]})
     api, res = G.generate(files(collide=True), "autogen-snippets=false")
     svc = api.services[f"{PKG}.Lab"]
     for rpc, (r, mt, rcls, mcls) in CASES.items():
